@@ -26,8 +26,8 @@ PROP = "C16"
 CASE_TIMEOUT = 60.0
 MOD = __name__
 META = {
-    "rule": "L1 grid: 28 requires_python shapes x 30 platforms of the documented families (several releases each) x 4 "
-    "implementation settings = 3360 specs; all pairs inside a (platform, implementation) group for wheel monotonicity over "
+    "rule": "L1 grid: 30 requires_python shapes x 30 platforms of the documented families (several releases each) x 4 "
+    "implementation settings = 3600 specs; all pairs inside a (platform, implementation) group for wheel monotonicity over "
     "a 176-wheel universe, all ordered pairs of the whole grid for the compare() relations, all same-family platform pairs "
     "for tag nesting (exhaustive over the grid); L2 Hypothesis requires_python pairs. Non-trivial = pair with different "
     "requires_python where one admits a subset of the other, or two different platforms of the same OS family and "
@@ -45,7 +45,9 @@ RPS = ["", ">=3.8", ">=3.9,<3.12", "<3.10", "==3.9.*", "!=3.10.*", ">=3.8,!=3.10
        # the same set written upper bound first / lower bound first (clauses are folded in written order)
        "<=3.10,>=3.8", ">=3.8,<=3.10",
        # a point followed / preceded by the half-open series that ends on it
-       "==3.10||==3.9.*", "==3.9.*||==3.10"]
+       "==3.10||==3.9.*", "==3.9.*||==3.10",
+       # union | union where an early range of the right side bridges every gap of the left one
+       ">=3.8,!=3.9.*,<3.11||>=3.9,!=3.11.*", ">=3.12"]
 PLATS = [None, "linux", "windows", "macos", "alpine", "windows_x86", "windows_arm64", "macos_x86_64", "macos_10_9_x86_64",
          "macos_10_15_x86_64", "macos_10_16_x86_64", "macos_11_0_x86_64", "macos_11_3_x86_64", "macos_12_3_x86_64", "macos_12_0_arm64", "macos_13_0_arm64", "macos_11_0_arm64",
          "manylinux_2_17_x86_64", "manylinux_2_28_x86_64", "manylinux_2_5_x86_64", "manylinux_2_12_x86_64", "manylinux_2_17_aarch64",
